@@ -602,7 +602,10 @@ fn fft_ntaps(rng: &mut Rng, cap: usize) -> usize {
         while n < ntaps {
             n <<= 1;
         }
-        if 2 * n - ntaps <= cap {
+        // block size = fft size - taps; tiny blocks (1 tap -> 1 sample per FFT) make a
+        // run with injected delays take minutes without adding anything
+        let nsamples = 2 * n - ntaps;
+        if nsamples <= cap && nsamples >= 16 {
             return ntaps;
         }
     }
